@@ -85,6 +85,11 @@ void restore_command_giver () {
   command_giver = *(cgsp--);
 }
 
+#ifdef NEOLITH_VERIF
+/* verification hook: depth of the command_giver save stack (static above) */
+int verif_command_giver_stack_depth (void) { return (int) (cgsp - command_giver_stack); }
+#endif
+
 /*********************************************************************/
 
 /**
